@@ -541,6 +541,115 @@ impl Texts {
 }
 
 // ---------------------------------------------------------------------------------------------------------
+// fill_states part: commands whose work depends on what is on the canvas (RIP_FILL, get / put image, copy region) on
+// prepared canvases
+
+const W: u32 = 640;
+const H: u32 = 350;
+
+fn placements() -> [(u32, u32, u32, u32); 15] {
+    [
+        (100, 60, 200, 120),
+        (100, 0, 200, 50),
+        (100, 250, 200, H - 1),
+        (0, 60, 80, 120),
+        (500, 60, W - 1, 120),
+        (0, 0, 60, 40),
+        (W - 61, 0, W - 1, 40),
+        (0, H - 41, 60, H - 1),
+        (W - 61, H - 41, W - 1, H - 1),
+        (100, 250, 200, H + 50),
+        (500, 60, W + 60, 120),
+        (W - 61, H - 41, W + 60, H + 50),
+        (0, 0, W - 1, H - 1),
+        (0, 0, W + 50, H + 50),
+        (0, H - 1, W - 1, H - 1),
+    ]
+}
+
+fn seeds(b: (u32, u32, u32, u32)) -> [(u32, u32); 13] {
+    let (cx, cy) = ((b.0 + b.2) / 2, (b.1 + b.3) / 2);
+    [
+        (cx, cy),
+        (b.0.saturating_sub(1), cy),
+        (cx, b.3 + 1),
+        (cx, 0),
+        (cx, H - 1),
+        (0, cy),
+        (W - 1, cy),
+        (0, 0),
+        (W - 1, 0),
+        (0, H - 1),
+        (W - 1, H - 1),
+        (cx, H),
+        (W, cy),
+    ]
+}
+
+const SHAPE_PENS: [u32; 3] = [0, 2, 7];
+const FILL_COLOURS: [u32; 3] = [0, 2, 15];
+const FILL_PATTERNS: [u32; 2] = [1, 5];
+const N_PREPS: u64 = 1 + 3 * 15 * 3;
+const N_SETTINGS: u64 = 3 * 2;
+const N_FINALS: u64 = 13 * 2 + 3;
+
+pub fn fill_states_total() -> u64 {
+    2 * N_PREPS * N_SETTINGS * N_FINALS
+}
+
+/// [viewport] [colour, fill style, shape] [fill style] final command(s)
+pub fn fill_states_case(mut i: u64) -> RipCase {
+    let fin = i % N_FINALS;
+    i /= N_FINALS;
+    let setting = i % N_SETTINGS;
+    i /= N_SETTINGS;
+    let prep = i % N_PREPS;
+    let viewport = i / N_PREPS == 1;
+    let mut segs = Vec::new();
+    if viewport {
+        segs.push(mk(0, b'v', &[(2, 10), (2, 10), (2, 300), (2, 200)], b""));
+    }
+    let mut bbox = (100, 60, 200, 120);
+    let mut pen = 7;
+    if prep > 0 {
+        let k = prep - 1;
+        pen = SHAPE_PENS[(k % 3) as usize];
+        bbox = placements()[((k / 3) % 15) as usize];
+        let (x0, y0, x1, y1) = bbox;
+        segs.push(mk(0, b'c', &[(2, pen)], b""));
+        segs.push(mk(0, b'S', &[(2, 1), (2, pen)], b""));
+        match k / 45 {
+            0 => segs.push(mk(0, b'B', &[(2, x0), (2, y0), (2, x1), (2, y1)], b"")),
+            1 => segs.push(mk(0, b'R', &[(2, x0), (2, y0), (2, x1), (2, y1)], b"")),
+            _ => segs.push(mk(0, b'o', &[(2, (x0 + x1) / 2), (2, (y0 + y1) / 2), (2, (x1 - x0) / 2), (2, (y1 - y0) / 2)], b"")),
+        }
+    }
+    segs.push(mk(0, b'S', &[(2, FILL_PATTERNS[(setting / 3) as usize]), (2, FILL_COLOURS[(setting % 3) as usize])], b""));
+    if fin < 26 {
+        let (sx, sy) = seeds(bbox)[(fin / 2) as usize];
+        // border colour: the pen of the shape, or a colour that is nowhere on the canvas
+        let border = if fin % 2 == 0 { pen } else { 14 };
+        segs.push(mk(0, b'F', &[(2, sx), (2, sy), (2, border)], b""));
+    } else {
+        let (x0, y0, x1, y1) = bbox;
+        match fin - 26 {
+            0 => {
+                segs.push(mk(1, b'C', &[(2, x0), (2, y0), (2, x1), (2, y1), (1, 0)], b""));
+                segs.push(mk(1, b'P', &[(2, 0), (2, 0), (2, 0), (1, 0)], b""));
+            }
+            1 => {
+                segs.push(mk(0, b'W', &[(2, 1)], b""));
+                segs.push(mk(1, b'C', &[(2, x0), (2, y0), (2, x1), (2, y1), (1, 0)], b""));
+                segs.push(mk(1, b'P', &[(2, W - 10), (2, H - 10), (2, 1), (1, 0)], b""));
+            }
+            _ => segs.push(mk(1, b'G', &[(2, x0), (2, y0), (2, x1), (2, y1.min(H - 1)), (2, 0), (2, H - 20)], b"")),
+        }
+        segs.push(mk(0, b'F', &[(2, 5), (2, 5), (2, 14)], b""));
+    }
+    RipCase { prefix: 0, segs }
+}
+
+// ---------------------------------------------------------------------------------------------------------
 // random part
 
 const JUNK: &[u8] = b" -.,;:$^<>~*#@_/()[]{}\\\x1b\x00\x7f\xe4\xff?+=&%\"'";
@@ -683,7 +792,18 @@ pub fn seg_strategy() -> BoxedStrategy<RipSeg> {
 }
 
 pub fn case_strategy(max_segs: usize) -> BoxedStrategy<RipCase> {
-    (prop_oneof![3 => Just(0u8), 1 => Just(1u8)], vec(seg_strategy(), 1..=max_segs)).prop_map(|(prefix, segs)| RipCase { prefix, segs }).boxed()
+    // one segment, or (1 in 12) a "prepare the canvas, choose the fill, fill / get / put" group taken from the fill_states grid
+    let group = prop_oneof![
+        11 => seg_strategy().prop_map(|s| vec![s]),
+        1 => any::<u32>().prop_map(|i| fill_states_case(i as u64 % fill_states_total()).segs),
+    ];
+    (prop_oneof![3 => Just(0u8), 1 => Just(1u8)], vec(group, 1..=max_segs))
+        .prop_map(move |(prefix, groups)| {
+            let mut segs = groups.concat();
+            segs.truncate(max_segs + 5);
+            RipCase { prefix, segs }
+        })
+        .boxed()
 }
 
 pub fn minimize(c: &RipCase) -> Vec<RipCase> {
